@@ -28,6 +28,7 @@ PROPERTY = "C13"
 FUNCTIONS = ["ApplicationHelp.render/_render_help", "CommandHelp.render/_render_help/_render_usage/_render_sub_command", "AbstractHelp._render_argument/_render_option/_render_synopsis",
              "LabeledParagraph.render", "Paragraph.render", "BlockLayout", "LabelAlignment", "HelpTextHandler.handle", "HelpResolver"]
 PART = {}
+EXTRA_BOUNDS = 'also: pages_inherited per width x indentation {0,2,8}: a sub-command with inherited parameters only, a sub-command named help, a command three levels deep below option-less parents, a display name + version longer than the terminal, both help routes.'
 BOUNDS = {"quick": "one application (3 top-level commands, one with 2 sub-commands, options on parent and child, 2 arguments); symbolic: hidden/disabled bits of 4 commands, description kind (none/short/long/with an unbreakable 70-character token) of 4 elements, free-text descriptions and help texts, "
                    "value mode and default of 2 options, multi-valued argument; terminal widths {40, 64, 120}; pages: application, parent command, sub-command; both help routes",
           "thorough": "10 widths in 40..200, 6 parent description/value-mode combinations, 4 hidden/disabled patterns"}
